@@ -40,13 +40,31 @@ func NewTimeSeries(fromTime, untilTime Timestamp, step Duration, values []Value)
 }
 
 // FromTime returns the start time of ts.
-func (ts *TimeSeries) FromTime() Timestamp { return ts.fromTime }
+// It returns zero if ts is nil.
+func (ts *TimeSeries) FromTime() Timestamp {
+	if ts == nil {
+		return 0
+	}
+	return ts.fromTime
+}
 
 // UntilTime returns the end time of ts.
-func (ts *TimeSeries) UntilTime() Timestamp { return ts.untilTime }
+// It returns zero if ts is nil.
+func (ts *TimeSeries) UntilTime() Timestamp {
+	if ts == nil {
+		return 0
+	}
+	return ts.untilTime
+}
 
 // Step returns the duration between points in ts.
-func (ts *TimeSeries) Step() Duration { return ts.step }
+// It returns zero if ts is nil.
+func (ts *TimeSeries) Step() Duration {
+	if ts == nil {
+		return 0
+	}
+	return ts.step
+}
 
 // Points converts ts to points.
 func (ts *TimeSeries) Points() Points {
@@ -131,7 +149,13 @@ func (ts *TimeSeries) DiffPointsExcludeSrcNaN(ts2 *TimeSeries) (Points, Points) 
 }
 
 // Values returns the values in ts.
-func (ts *TimeSeries) Values() []Value { return ts.values }
+// It returns nil if ts is nil.
+func (ts *TimeSeries) Values() []Value {
+	if ts == nil {
+		return nil
+	}
+	return ts.values
+}
 
 // String returns the string representation of ts.
 func (ts *TimeSeries) String() string {
@@ -146,10 +170,14 @@ func (ts *TimeSeries) String() string {
 // and returns the extended buffer.
 //
 // AppendTo method implements the AppenderTo interface.
+//
+// A nil ts (an archive that was not selected, or a time range
+// outside of the archive) is encoded as the zero time series.
 func (ts *TimeSeries) AppendTo(dst []byte) []byte {
-	dst = ts.fromTime.AppendTo(dst)
-	dst = ts.untilTime.AppendTo(dst)
-	dst = ts.step.AppendTo(dst)
+	fromTime, untilTime, step := ts.FromTime(), ts.UntilTime(), ts.Step()
+	dst = fromTime.AppendTo(dst)
+	dst = untilTime.AppendTo(dst)
+	dst = step.AppendTo(dst)
 	values := ts.Values()
 	for i := range values {
 		dst = values[i].AppendTo(dst)
@@ -180,6 +208,11 @@ func (ts *TimeSeries) TakeFrom(src []byte) ([]byte, error) {
 		return nil, err
 	}
 
+	if ts.step == 0 && ts.fromTime == 0 && ts.untilTime == 0 {
+		// the zero time series stands for an absent (nil) one.
+		ts.values = nil
+		return src, nil
+	}
 	if ts.step <= 0 {
 		return nil, errors.New("step must be positive")
 	}
